@@ -7,6 +7,8 @@ from .. import bits, paths
 from ..core import call_attr, calls_in, const, dotted, is_const, kwarg, norm, slice_parts, text, walk_local
 
 EXPLANATION = [
+    'C08.config-options: (shared with C18) the configuration-option decoder loops while a 2-byte header is left and takes exactly the announced value bytes: the 3-byte FCS option (always last) is never dropped, so both ends agree on the FCS setting.',
+    'C08.piggyback-ack: every site of EnhancedRetransmissionProcessor that serialises a pending I-frame sets its req_seq from the current receive state (self._req_seq_num) first.',
     'C08.fcs-negotiation: FCS negotiation converges: a refusal of the FCS option suggests a value the refusing side accepts (never an echo), a request for no FCS is always accepted, and the requester adopts the suggested setting into fcs_enabled before it configures again.',
     'C08.bytes-of-number: no single-argument bytes() call is applied to a flag (an attribute or parameter declared bool, a comparison, a boolean expression): bytes(True) is one zero byte, not the byte 0x01.',
     'C08.one-shot: no name bound to a generator expression or to filter() / map() / zip() / reversed() / enumerate() is read in more than one consuming position or inside a loop that evaluates it repeatedly: such an iterator is empty after its first walk.',
@@ -569,7 +571,36 @@ def fcs_negotiation(ctx):
             'after UNACCEPTABLE_PARAMETERS the requester re-sends a request without adopting the suggested FCS setting: it keeps computing / expecting FCS while the peer does not (SDUs corrupted), or asks the same thing again', p.loc(rs))
 
 
+def piggyback_ack(ctx):
+    """Every I-frame carries the current acknowledgement (ReqSeq) of the reverse direction: it is stamped from the receiver
+    state when the frame is (re)sent, not when the SDU was segmented -- a stale ReqSeq acknowledges nothing new (or moves the
+    peer's window backwards) when traffic flows both ways."""
+    R, p = ctx.r, ctx.p
+    rule = 'C08.piggyback-ack'
+    ci = p.cls('bumble.l2cap.EnhancedRetransmissionProcessor')
+    if ci is None:
+        R.bad(rule, 'bumble.l2cap.EnhancedRetransmissionProcessor', 'anchor missing')
+        return
+    n = 0
+    for name, fn in sorted(ci.methods.items()):
+        sends = [c for c in calls_in(fn) if dotted(c.func) == 'self.channel.send_pdu' and c.args and isinstance(c.args[0], ast.Call) and dotted(c.args[0].func) == 'bytes' and isinstance(c.args[0].args[0], ast.Name)]
+        for c in sends:
+            v = c.args[0].args[0].id
+            n += 1
+            stamp = [s_ for s_ in walk_local(fn) if isinstance(s_, ast.Assign) and dotted(s_.targets[0]) == f'{v}.req_seq' and norm(s_.value) == 'self._req_seq_num' and s_.lineno < c.lineno]
+            R.check(bool(stamp), rule, f'bumble.l2cap.EnhancedRetransmissionProcessor.{name} | {v}.req_seq', 'stamped with the current receive state before the frame is serialised',
+                    f'{name} serialises the pending PDU `{v}` without setting its req_seq from self._req_seq_num first: the frame acknowledges what was current when the SDU was queued, so with traffic in both directions the peer\'s window is not opened (or goes backwards) and the transfer stalls', p.loc(c))
+    R.check(n >= 1, rule, 'bumble.l2cap.EnhancedRetransmissionProcessor | I-frame senders', f'{n} sites serialise a pending PDU', 'no I-frame send site found')
+
+
+def config_options_rule(ctx):
+    from .c18 import config_options
+    config_options(ctx, 'C08.config-options')
+
+
 RULES = [
+    ('C08.config-options', config_options_rule),
+    ('C08.piggyback-ack', piggyback_ack),
     ('C08.fcs-negotiation', fcs_negotiation),
     ('C08.bytes-of-number', bytes_of_number_rule),
     ('C08.one-shot', one_shot_rule),
